@@ -868,7 +868,7 @@ def run(r, full=False):
         r.notes.append("driver unavailable: " + err)
     bad = [f for f, p in preds.items() if p and not p["ok"]]
     badmeta = [f for f, p in preds.items() if p and not p["meta"]]
-    r.extra["programs"] = {f: dict(size=p["size"], may_write=p["write"], may_return=p["ret"], ok=p["ok"], meta=p["meta"])
+    r.extra["buffer_programs"] = {f: dict(size=p["size"], may_write=p["write"], may_return=p["ret"], ok=p["ok"], meta=p["meta"])
                            for f, p in preds.items() if p}
     r.extra["rejected_by_checker"] = bad
     r.extra["meta_not_conforming"] = badmeta
